@@ -345,7 +345,235 @@ func c03OracleTx(c *Ctx, text []byte) {
 	}
 }
 
+// ---------------------------------------------------------------------------------------
+// integer fields: ±2^k for every k ≤ 62 and multiples of 2^32 / 2^16 / 2^8 (narrowing slips).
+// Both variants go through the wire format (MarshalText → UnmarshalText) before their ids are compared.
+
+type c03IntField struct {
+	name      string
+	inputSide bool
+	get       func(t *types.TxData) (uint64, bool)
+	set       func(t *types.TxData, v uint64)
+}
+
+func c03IntFields(t *types.TxData, inputs, outputs []int) []c03IntField {
+	fs := []c03IntField{
+		{name: "tx.version", get: func(t *types.TxData) (uint64, bool) { return t.Version, true }, set: func(t *types.TxData, v uint64) { t.Version = v }},
+		{name: "tx.timerange", get: func(t *types.TxData) (uint64, bool) { return t.TimeRange, true }, set: func(t *types.TxData, v uint64) { t.TimeRange = v }},
+	}
+	for _, i := range inputs {
+		i := i
+		scField := func(name string, sel func(*types.SpendCommitment) *uint64) c03IntField {
+			return c03IntField{name: fmt.Sprintf("in[%d].%s", i, name), inputSide: true,
+				get: func(t *types.TxData) (uint64, bool) {
+					if sc := spendCommitmentOf(t.Inputs[i]); sc != nil {
+						return *sel(sc), true
+					}
+					return 0, false
+				},
+				set: func(t *types.TxData, v uint64) { *sel(spendCommitmentOf(t.Inputs[i])) = v }}
+		}
+		issField := func(name string, sel func(*types.IssuanceInput) *uint64) c03IntField {
+			return c03IntField{name: fmt.Sprintf("in[%d].%s", i, name), inputSide: true,
+				get: func(t *types.TxData) (uint64, bool) {
+					if ii, ok := t.Inputs[i].TypedInput.(*types.IssuanceInput); ok {
+						return *sel(ii), true
+					}
+					return 0, false
+				},
+				set: func(t *types.TxData, v uint64) {
+					ii := t.Inputs[i].TypedInput.(*types.IssuanceInput)
+					fresh := types.NewIssuanceInput(ii.Nonce, ii.Amount, ii.IssuanceProgram, ii.Arguments, ii.AssetDefinition).TypedInput.(*types.IssuanceInput)
+					fresh.VMVersion = ii.VMVersion
+					*sel(fresh) = v
+					t.Inputs[i].TypedInput = fresh
+				}}
+		}
+		fs = append(fs,
+			scField("spend.amount", func(s *types.SpendCommitment) *uint64 { return &s.Amount }),
+			scField("spend.sourceposition", func(s *types.SpendCommitment) *uint64 { return &s.SourcePosition }),
+			issField("issuance.amount", func(ii *types.IssuanceInput) *uint64 { return &ii.Amount }),
+			issField("issuance.vmversion", func(ii *types.IssuanceInput) *uint64 { return &ii.VMVersion }),
+		)
+	}
+	for _, k := range outputs {
+		k := k
+		fs = append(fs, c03IntField{name: fmt.Sprintf("out[%d].amount", k),
+			get: func(t *types.TxData) (uint64, bool) { return t.Outputs[k].Amount, t.Outputs[k].AssetId != nil },
+			set: func(t *types.TxData, v uint64) { t.Outputs[k].Amount = v }})
+	}
+	return fs
+}
+
+type c03Delta struct {
+	name string
+	val  uint64
+}
+
+const c03MaxWire = 1<<63 - 1
+
+// c03Deltas: the values old ± 2^k (all k when full, a sample otherwise) and old + m·2^32, 2^16, 2^8
+// that stay inside the wire range [0, 2^63-1]
+func c03Deltas(c *Ctx, old uint64, full bool) []c03Delta {
+	var ds []c03Delta
+	add := func(name string, v uint64, ok bool) {
+		if ok && v != old && v <= c03MaxWire {
+			ds = append(ds, c03Delta{name, v})
+		}
+	}
+	pow := func(k uint) {
+		d := uint64(1) << k
+		add(fmt.Sprintf("+2^%d", k), old+d, old+d >= old)
+		add(fmt.Sprintf("-2^%d", k), old-d, old >= d)
+	}
+	if full {
+		for k := uint(0); k <= 62; k++ {
+			pow(k)
+		}
+	} else {
+		pow(32)
+		pow(16)
+		pow(8)
+		for j := 0; j < 3; j++ {
+			pow(uint(c.Rng.Intn(63)))
+		}
+	}
+	for _, m := range []uint64{3, 5, 1<<20 + 1} {
+		add(fmt.Sprintf("+%d*2^32", m), old+m<<32, old+m<<32 >= old)
+	}
+	add("+3*2^16", old+3<<16, true)
+	add("+257*2^8", old+257<<8, true)
+	add("+2^32+2^16+2^8", old+1<<32+1<<16+1<<8, true)
+	return ds
+}
+
+func long(s string) string {
+	if len(s) > 1500 {
+		return s[:1500] + "…"
+	}
+	return s
+}
+
+// c03IntOracle: every integer field × every delta: encode, decode, map; the tx id must change.
+func c03IntOracle(c *Ctx, text []byte, full bool) {
+	base := cloneTx(text)
+	id0 := txIDOf(base)
+	var ins, outs []int
+	if full {
+		for i := range base.Inputs {
+			ins = append(ins, i)
+		}
+		for k := range base.Outputs {
+			outs = append(outs, k)
+		}
+	} else {
+		if n := len(base.Inputs); n > 0 {
+			ins = []int{c.Rng.Intn(n)}
+		}
+		if n := len(base.Outputs); n > 0 {
+			outs = []int{c.Rng.Intn(n)}
+		}
+	}
+	for _, f := range c03IntFields(base, ins, outs) {
+		old, ok := f.get(base)
+		if !ok {
+			continue
+		}
+		for _, d := range c03Deltas(c, old, full) {
+			t := cloneTx(text)
+			f.set(t, d.val)
+			wire, err := t.MarshalText()
+			if err != nil {
+				c.Count("intmut:not-encodable")
+				continue
+			}
+			back := &types.TxData{}
+			if err := back.UnmarshalText(wire); err != nil {
+				c.Count("intmut:not-decodable")
+				continue
+			}
+			if v, ok := f.get(back); !ok || v != d.val {
+				failLimited(c, "intfield-does-not-roundtrip:"+f.name, long(string(wire)))
+				continue
+			}
+			var id1 bc.Hash
+			okMap := true
+			func() {
+				defer func() {
+					if r := recover(); r != nil {
+						okMap = false
+					}
+				}()
+				id1 = txIDOf(back)
+			}()
+			if !okMap {
+				continue
+			}
+			c.Count("intmut:checked")
+			if id1 != id0 {
+				continue
+			}
+			if f.inputSide && len(base.Outputs) == 0 {
+				failLimited(c, sigNoOutputs, short(f.name+" on "+string(text)))
+				continue
+			}
+			// strip the index for the signature: in[3].spend.sourceposition -> in.spend.sourceposition
+			sigName := f.name
+			if p := strings.Index(sigName, "["); p >= 0 {
+				sigName = sigName[:p] + sigName[strings.Index(sigName, "]")+1:]
+			}
+			failLimited(c, "consensus-mutation-keeps-txid:"+sigName+":"+d.name,
+				long(fmt.Sprintf("%s: %d -> %d (%s): both transactions decode, both have id %s; A=%s B=%s", f.name, old, d.val, d.name, id0.String(), text, wire)))
+		}
+	}
+}
+
+// c03AllKindsTx: a small transaction with a spend, a veto and an issuance input and two outputs,
+// swept with EVERY delta on EVERY integer field once per run
+func c03AllKindsTx(g *codecGen) []byte {
+	t := &types.TxData{Version: 1, TimeRange: 654,
+		Inputs:  []*types.TxInput{g.input(1), g.input(3), g.input(0)},
+		Outputs: []*types.TxOutput{types.NewOriginalTxOutput(bc.AssetID(g.hash()), 3, []byte{0x51}, nil), types.NewVoteOutput(bc.AssetID(g.hash()), 70000, []byte{0x52}, []byte{1, 2}, nil)}}
+	spendCommitmentOf(t.Inputs[0]).SourcePosition = 3
+	spendCommitmentOf(t.Inputs[0]).Amount = 5
+	spendCommitmentOf(t.Inputs[1]).SourcePosition = 1<<33 + 7
+	text, _ := t.MarshalText()
+	return text
+}
+
+var c03HeadersSwept, c03TxsSampled int
+
+func c03HeaderIntOracle(c *Ctx, h *types.BlockHeader) {
+	h0 := h.Hash()
+	c03HeadersSwept++
+	full := c03HeadersSwept <= 10 // every delta on the first headers of a run, a sample afterwards
+	for _, f := range []struct {
+		name string
+		sel  func(*types.BlockHeader) *uint64
+	}{{"version", func(b *types.BlockHeader) *uint64 { return &b.Version }}, {"height", func(b *types.BlockHeader) *uint64 { return &b.Height }},
+		{"timestamp", func(b *types.BlockHeader) *uint64 { return &b.Timestamp }}} {
+		old := *f.sel(h)
+		for _, d := range c03Deltas(c, old, full) {
+			b := *h
+			*f.sel(&b) = d.val
+			wire, err := b.MarshalText()
+			if err != nil {
+				continue
+			}
+			back := &types.BlockHeader{}
+			if err := back.UnmarshalText(wire); err != nil || *f.sel(back) != d.val {
+				continue
+			}
+			c.Count("intmut:hdr")
+			if back.Hash() == h0 {
+				failLimited(c, "consensus-mutation-keeps-blockhash:"+f.name+":"+d.name, long(fmt.Sprintf("%s: %d -> %d: both headers decode and hash to %s; B=%s", f.name, old, d.val, h0.String(), wire)))
+			}
+		}
+	}
+}
+
 func c03OracleHeader(c *Ctx, h *types.BlockHeader) {
+	c03HeaderIntOracle(c, h)
 	h0 := h.Hash()
 	try := func(name string, consensus bool, f func(b *types.BlockHeader)) {
 		b := *h
@@ -552,6 +780,9 @@ func c03Line(c *Ctx, line string) {
 		c.Op(line, l)
 		if tx != nil {
 			c03OracleTx(c, text)
+			if c03TxsSampled++; c03TxsSampled <= 400 || c03TxsSampled%3 == 0 {
+				c03IntOracle(c, text, false)
+			}
 		}
 	case "hdr":
 		c.Op(line, c03HdrLine(text))
@@ -589,6 +820,13 @@ func runC03(c *Ctx) {
 		}
 	}
 	g := &codecGen{r: c.Rng, count: c.Count}
+	// every integer field × every delta, once per run, on a transaction with all committed input kinds
+	{
+		text := c03AllKindsTx(g)
+		l, _ := c03TxLine(text)
+		c.Op("tx "+string(text), l)
+		c03IntOracle(c, text, true)
+	}
 	for i := 0; i < c.N; i++ {
 		switch k := c.Rng.Intn(10); {
 		case k < 7:
